@@ -96,7 +96,55 @@ def verify_unit(unit):
     except Exception as e:
         return _crash(name, kind, t0, e)
     _attach_replays(kind, name, d)
+    if kind == 'function':
+        try:
+            _hidden_state_obligation(reg, reg.fns[name], d)
+        except Exception as e:
+            d['engine_error'] = d.get('engine_error') or f'hidden-state analysis crashed: {e!r}'
     return d
+
+
+HIDDEN = 'frame/no_state_shared_between_calls'
+
+
+def _hidden_findings(reg, c, used=()):
+    from . import hidden
+
+    def registered(f):
+        hit = reg.by_code.get(id(getattr(f, '__code__', None)))
+        return hit is not None and hit[1].mode == 'contract' and hit[1] is not c
+    fns = [c.fn]
+    for q in used:
+        cc = reg.fns.get(q)
+        if cc is not None and cc.mode == 'transparent':
+            fns.append(cc.fn)
+    seen = set()
+    out = []
+    for f in fns:
+        out.extend(hidden.analyze(f, registered, seen))
+    return out
+
+
+def _hidden_state_obligation(reg, c, d):
+    """`<fn>/frame/no_state_shared_between_calls` (pyvc/hidden.py): discharged syntactically on
+    the real function objects; a failure is replayed by a differential native run."""
+    from . import hidden
+    short = c.fn.__qualname__
+    oname = f'{short}/{HIDDEN}'
+    t0 = time.time()
+    fnd = _hidden_findings(reg, c, d.get('used', []))
+    o = dict(status='proved', checks=1, secs=0.0, backends=['syntactic'], ce=None, detail='',
+             smt2=None, where=short)
+    if fnd:
+        o['status'] = 'failed'
+        o['detail'] = '; '.join(f'{f.kind}: {f.text}' for f in fnd)
+        try:
+            rng = random.Random(_OPTS.get('seed', 0))
+            o['replay'] = hidden.differential_replay(c, reg, fnd, rng)
+        except Exception:
+            o['replay'] = dict(verdict='replay-error', detail=traceback.format_exc()[-1200:])
+    o['secs'] = round(time.time() - t0, 3)
+    d['obls'][oname] = o
 
 
 def verify_part(job):
@@ -516,14 +564,30 @@ def seeded_selftest(pid):
     return out
 
 
+def _only():
+    """VERIF_ONLY=<substring>[,<substring>...]: restrict a run to the units whose name contains one
+    of the substrings (mutation campaigns: only the changed function's own obligations can change,
+    verification being modular).  Never used by a registered check: it needs VERIF_OUT, so a partial
+    run cannot overwrite an evidence file."""
+    o = os.environ.get('VERIF_ONLY')
+    if not o:
+        return None
+    if not os.environ.get('VERIF_OUT'):
+        raise SystemExit('VERIF_ONLY needs VERIF_OUT (a partial run must not write evidence)')
+    return [x for x in o.split(',') if x]
+
+
 def units_for_property(reg, pid):
     units = []
+    only = _only()
     for q, c in reg.fns.items():
         if pid in c.props and c.mode == 'contract' and c.verify:
-            units.append(('function', q))
+            if only is None or any(x in q for x in only):
+                units.append(('function', q))
     for n, l in reg.lemmas.items():
         if pid in l.props:
-            units.append(('lemma', n))
+            if only is None or any(x in n for x in only) or 'lemma' in only:
+                units.append(('lemma', n))
     return units
 
 
@@ -581,6 +645,8 @@ def run_property(pid, tier='quick', seed=0, extra_checks=None, modules=None, job
                 # closure: contracts relied on at call sites must be verified in this run too
                 for q in d.get('used', []):
                     c = reg.fns.get(q)
+                    if _only() is not None:
+                        continue
                     if c is not None and c.mode == 'contract' and c.verify:
                         uu = ('function', q)
                         if uu not in done:
@@ -909,6 +975,17 @@ def replay_file(path):
         start, steps = pickle.loads(base64.b64decode(rp['trace_pickle_b64']))
         k, fails, info = run_trace(reg, start, steps)
         if k is not None and k >= 0:
+            print('REPRODUCED', json.dumps(fails), json.dumps(info, default=str)[:500])
+            return 0
+        print('NOT-REPRODUCED', json.dumps(info, default=str)[:500])
+        return 1
+    if rp.get('pair_pickle_b64') and rec['unit'] in reg.fns:
+        from . import hidden
+        c = reg.fns[rec['unit']]
+        a, y = pickle.loads(base64.b64decode(rp['pair_pickle_b64']))
+        fnd = _hidden_findings(reg, c, [q for q, cc in reg.fns.items() if cc.mode == 'transparent'])
+        fails, info = hidden.replay_pair(c, reg, fnd, a, y)
+        if fails:
             print('REPRODUCED', json.dumps(fails), json.dumps(info, default=str)[:500])
             return 0
         print('NOT-REPRODUCED', json.dumps(info, default=str)[:500])
